@@ -346,6 +346,7 @@ fn run_single_program(
                 // child processes need to handle ctrl-Z
                 libc::signal(libc::SIGTSTP, libc::SIG_DFL);
                 libc::signal(libc::SIGQUIT, libc::SIG_DFL);
+                libc::signal(libc::SIGINT, libc::SIG_DFL);
             }
 
             // pipes on the left side (and the write end of the previous pipe)
